@@ -31,6 +31,7 @@ def run(ck, an, tier):
     ledger.marking_equations(ck, an, {"equations", "guards"})
     ledger.valuation_formulas(ck, an, {"nlv"})
     sides(ck, an)
+    cash_at_par(ck, an)
     ledger.ledger_ownership(ck, an, "S7")
     ledger.ledger_containers(ck, an, "S7")
     s8(ck, an)
@@ -71,6 +72,17 @@ def sides(ck, an):
         k = [fa.sym.canon(d.value, d.node) for d in fa.rd.defs if d.kind == "assign" and "price" in d.var]
         ck.check(any(".liq_price(" in x or ".acq_price(-" in x for x in k), "SIGN", "S3.valuation-side", fa.f.short, fa.f.loc, "valuation uses the book's liquidation price",
                  f"valuation price is {k}", construct="liq_price = ...")
+
+
+def cash_at_par(ck, an):
+    """The base currency is quoted at 1.0 / 1.0 when an episode starts (cash is worth its face value)."""
+    fr = an.fa("TradingEnv.reset")
+    seeds = [c for c in fr.calls_named("process_EventNBBO") if c.args and isinstance(c.args[0], ast.Call) and len(c.args[0].args) >= 4 and "Cash" in ast.unparse(c.args[0].args[1])]
+    ok = len(seeds) == 1 and [const_value(a) for a in seeds[0].args[0].args[2:4]] == [1.0, 1.0]
+    ck.check(ok, "CONST", "S1.cash-quoted-at-par", fr.f.short, fr.f.loc, "reset quotes cash at bid = ask = 1.0", f"cash seed quotes: {[ast.unparse(c.args[0])[:60] for c in seeds]}", construct="EventNBBO(self.now(), Cash(), 1.0, 1.0)")
+    procs = fr.calls_to("TradingEnv._process_latent_events", "TradingEnv._process_nonlatent_events")
+    if seeds and procs:
+        ord_before(ck, fr, "S1.cash-quoted-before-events", seeds, procs, "the cash quote", "processing of transmitter events")
 
 
 def s8(ck, an):
